@@ -224,7 +224,8 @@ def install(ctx, repo, probes):
             if a != b:
                 ctx.target("switch/%s->%s" % (a, b))
     ctx.target("cli/option", "cli/env", "cli/neither", "cli/both",
-               "fresh-year/after-switch", "scratch-calendar")
+               "fresh-year/after-switch", "scratch-calendar",
+               "live-iterator/after-switch", "child/import-env")
 
 
 def run_case(ctx, repo, case):
@@ -239,6 +240,8 @@ def run_case(ctx, repo, case):
     repo.CALENDAR.set_mode("gregorian")
     prev = "gregorian"
     switched = False
+    ctx.live = {}
+    name_of = case["steps"]
     try:
         for step in case["steps"]:
             if step[0] == "set":
@@ -249,6 +252,40 @@ def run_case(ctx, repo, case):
                     prev = before
                     switched = True
                     ctx.cls("switch/%s->%s" % (before, after))
+                continue
+            if step[0] == "liveiter":
+                # one iteration over an unbounded daily recurrence kept open
+                # across the whole history: each element is the previous one
+                # plus a day *in the mode active when it is asked for*
+                ctx.ev("live-iterator")
+                cur = R.canon(repo.CALENDAR.mode)
+                live = ctx.live
+                if live.get("prev") is not None and \
+                        not R.tp_valid(cur, live["prev"]):
+                    live.clear()        # (28 Feb + 2 exists in 360day only)
+                if "it" not in live:
+                    live["it"] = iter(repo.parsers.TimeRecurrenceParser(
+                        repo.parsers.TimePointParser(
+                            assumed_time_zone=(0, 0))).parse(
+                                "R/2001-02-2%dT00Z/P1D" % (5 + len(name_of)
+                                                          % 3)))
+                    live["prev"] = None
+                got = next(live["it"])
+                if live["prev"] is not None:
+                    want = R.pt_add(cur, R.pt_of(live["prev"]),
+                                    (0, 0, 86400))
+                    if not R.pt_same_fields(want, got):
+                        ctx.violation(
+                            "battery.live-iterator", "an open iteration "
+                            "yielded %r after %r under %s (previous mode "
+                            "%s): not the day after in this calendar" % (
+                                R.tp_key(got), R.tp_key(live["prev"]),
+                                repo.CALENDAR.mode, prev))
+                        live.clear()
+                        continue
+                    if switched:
+                        ctx.cls("live-iterator/after-switch")
+                live["prev"] = got
                 continue
             if step[0] == "scratch":
                 # a private Calendar object set to some mode: the active
@@ -375,6 +412,9 @@ def workload(ctx, repo):
                 steps += [["item", n] for n in rng.sample(names, 12)]
                 steps += [["set", rng.choice(spell_of[b])]]
                 steps += [["scratch", rng.choice(spell_of[a] + [None])]]
+                steps += [["liveiter"]]
+                steps.insert(1, ["liveiter"])
+                steps.insert(1, ["liveiter"])
                 steps += [["fresh", y] for y in fresh]
                 order = list(names)
                 rng.shuffle(order)
@@ -396,6 +436,8 @@ def workload(ctx, repo):
             if v < 0.25:
                 steps.append(["set", rng.choice(SPELLS + CASE_SPELLS +
                                                 (None, ""))])
+            elif v < 0.27:
+                steps.append(["liveiter"])
             elif v < 0.28:
                 steps.append(["scratch", rng.choice(SPELLS + (None,))])
             elif v < 0.35:
@@ -429,6 +471,38 @@ def workload(ctx, repo):
                 for m in R.MODES for how in ("option", "env")]
         if ctx.tier == "quick":
             todo = [todo[(7 * i + ctx.seed) % len(todo)] for i in range(6)]
+        # the variable as it was when the library was imported is history:
+        # without option and variable the default (Gregorian) applies
+        for start_mode in ("360day", "366_day"):
+            e = dict(env)
+            e["ISODATETIMECALENDAR"] = start_mode
+            code = (
+                "import os\n"
+                "import metomi.isodatetime.data as D\n"
+                "from metomi.isodatetime.datetimeoper import "
+                "DateTimeOperator\n"
+                "os.environ.pop('ISODATETIMECALENDAR')\n"
+                "DateTimeOperator()\n"
+                "a = (D.CALENDAR.mode, D.get_days_in_month(2, 2001))\n"
+                "D.CALENDAR.set_mode('365day')\n"
+                "D.CALENDAR.set_mode()\n"
+                "print(a, (D.CALENDAR.mode, D.get_days_in_year(2004)))\n")
+            ctx.case = {"op": "child-import-env", "mode": start_mode}
+            proc = subprocess.run([sys.executable, "-c", code], env=e,
+                                  cwd=core.VERIF, stdin=subprocess.DEVNULL,
+                                  stdout=subprocess.PIPE,
+                                  stderr=subprocess.PIPE, timeout=120)
+            ctx.ev("child.checked")
+            want = "('gregorian', 28) ('gregorian', 366)\n"
+            if proc.stdout.decode() != want:
+                ctx.violation("child.import-env", "a process started with "
+                              "ISODATETIMECALENDAR=%s that later removes the "
+                              "variable and asks for the default mode "
+                              "reports %r (stderr %r), expected %r" % (
+                                  start_mode, proc.stdout.decode(),
+                                  proc.stderr.decode()[-200:], want))
+            else:
+                ctx.cls("child/import-env")
         for name, argv, mode, how in todo:
             e = dict(env)
             e.pop("ISODATETIMECALENDAR", None)
